@@ -138,3 +138,17 @@ Theorem C02_tracker_from_source : forall st o,
   Proofs.TrackerIRTie.run_generated st o = Some (Model.Tracker.tstep st o).
 Proof. exact Proofs.TrackerIRTie.tracker_from_source. Qed.
 Print Assumptions C02_tracker_from_source.
+
+(* ---------- the daemon configures no time filter ----------
+   reassemblerCB drops an event whose timestamp is before Auditd.After.  RunNamedPipe's audit worker (closure
+   regenerated into Gen/WorkerBodies.v, normalised by Model/WorkerWiring.v) builds the processor from exactly the
+   fields Audits, Logins, EventW, Health: After is the zero time, so in the daemon no event of a correlated session
+   is withheld because of its timestamp. *)
+From Coq Require Import String.
+From AM Require Import Model.WorkerWiring Gen.WorkerBodies Proofs.WorkerWiringTie.
+Theorem C02_no_time_filter_in_the_daemon :
+  exists fs, bind_opt (ret_of 2) (fun e => option_map fields_of (recv_of e)) = Some fs /\
+             List.length fs = 4 /\ ~ In "After"%string fs /\ In "Audits"%string fs /\ In "Logins"%string fs /\
+             In "EventW"%string fs /\ In "Health"%string fs.
+Proof. exact audit_processor_has_no_time_filter. Qed.
+Print Assumptions C02_no_time_filter_in_the_daemon.
